@@ -8,7 +8,7 @@ CONSTANTS
   PadSizes = {0, 1}
   Incs = {1, 3}
   InitWins = {1, 5}
-  MaxFrames = {3}
+  MaxFrames = {1, 3}
   MaxSend = 2
   MaxCtl = 2
   OutCap = 4
@@ -17,11 +17,11 @@ CONSTANTS
   RstCodes = {8, 2}
   Promised = {2}
   Pings = {1}
-  BugContES = TRUE
+  BugContES = FALSE
   BugPadCredit = FALSE
   EncodeAtEnqueue = FALSE
   BugZeroCostHeld = FALSE
   SplitOnlyAtEnqueue = FALSE
-  DropOnClose = FALSE
-INVARIANTS WithinGrant WithinMaxFrame CreditReturned NoEligibleQueued LedgerAgrees PrefixFidelity
+  DropOnClose = TRUE
+INVARIANTS WithinGrant WithinMaxFrame CreditReturned NoEligibleQueued LedgerAgrees PrefixFidelity Conserved HpackInOrder
 CHECK_DEADLOCK FALSE
